@@ -46,14 +46,14 @@ def ob_a(letter: int, alt: int, octave: int) -> bool:
     s = spelling(letter, alt, octave)
     p = kp.HumdrumPitchImporter().import_pitch(s)
     exp_name = LETTERS[letter].upper() + ('+' * SMALL[alt] if alt >= 0 else '-' * SMALL[-alt])
-    check(p.name == exp_name, f'import_pitch({s!r}).name = {p.name!r}, expected {exp_name!r}')
-    check(p.octave == octave, f'import_pitch({s!r}).octave = {p.octave!r}, expected {octave}')
+    check(p.name == exp_name, lambda: f'import_pitch({s!r}).name = {p.name!r}, expected {exp_name!r}')
+    check(p.octave == octave, lambda: f'import_pitch({s!r}).octave = {p.octave!r}, expected {octave}')
     out1 = kp.HumdrumPitchExporter().export_pitch(p)
-    check(out1 == s, f'export_pitch(import_pitch({s!r})) = {out1!r}')
+    check(out1 == s, lambda: f'export_pitch(import_pitch({s!r})) = {out1!r}')
     check(p.name == exp_name and p.octave == octave,
           f'export_pitch altered its argument: name {exp_name!r} -> {p.name!r}, octave {octave} -> {p.octave!r}')
     out2 = kp.HumdrumPitchExporter().export_pitch(p)
-    check(out2 == s, f'second export_pitch of the same pitch object = {out2!r}, first = {out1!r}')
+    check(out2 == s, lambda: f'second export_pitch of the same pitch object = {out2!r}, first = {out1!r}')
     return True
 
 
@@ -76,12 +76,12 @@ def ob_b(letter: int, alt: int, octave: int, upper: bool, style: int) -> bool:
     ex = kp.HumdrumPitchExporter()
     out1 = ex.export_pitch(p)
     exp = spelling(letter, alt, octave)
-    check(out1 == exp, f'export_pitch(AgnosticPitch({name!r},{octave})) = {out1!r}, expected {exp!r}')
-    check(p.name == n0 and p.octave == o0, f'export_pitch altered its argument: {n0!r} -> {p.name!r}')
+    check(out1 == exp, lambda: f'export_pitch(AgnosticPitch({name!r},{octave})) = {out1!r}, expected {exp!r}')
+    check(p.name == n0 and p.octave == o0, lambda: f'export_pitch altered its argument: {n0!r} -> {p.name!r}')
     out2 = ex.export_pitch(p)
-    check(out2 == out1, f'exporting twice differs: {out1!r} then {out2!r}')
+    check(out2 == out1, lambda: f'exporting twice differs: {out1!r} then {out2!r}')
     q = kp.HumdrumPitchImporter().import_pitch(out1)
-    check(q == p, f're-import of {out1!r} gives {q} != {p}')
+    check(q == p, lambda: f're-import of {out1!r} gives {q} != {p}')
     return True
 
 
